@@ -324,7 +324,7 @@ func mouseHows(flags int) []string {
 	case fullMouseFlags:
 		return []string{"or", "variadic", "no-arguments", "disable-then-enable"}
 	}
-	return []string{"or", "variadic", "disable-then-enable"}
+	return []string{"or", "variadic", "disable-then-enable", "narrowed-from-all"}
 }
 
 func flagList(flags int) []tcell.MouseFlags {
@@ -356,6 +356,10 @@ func prepMouse(flags int, how string) (tcell.Screen, error) {
 	case "disable-then-enable":
 		s.EnableMouse()
 		s.DisableMouse()
+		s.EnableMouse(tcell.MouseFlags(flags))
+	case "narrowed-from-all":
+		// a second EnableMouse replaces the selection, it does not add to it
+		s.EnableMouse()
 		s.EnableMouse(tcell.MouseFlags(flags))
 	default:
 		return nil, fmt.Errorf("unknown how %q", how)
